@@ -32,6 +32,7 @@ macro_rules! dispatch {
             "C12" => runner::$f::<props::c12::P>($($arg),*),
             "C13" => runner::$f::<props::c13::P>($($arg),*),
             "C15" => runner::$f::<props::c15::P>($($arg),*),
+            "C20" => runner::$f::<props::c20::P>($($arg),*),
             other => {
                 eprintln!("unknown property {other}");
                 2
